@@ -12,7 +12,7 @@ atom, or nothing but descriptors / closed branches ... no: nothing but descripto
 import random
 
 ORDER = {"": "SINGLE", "-": "SINGLE", "=": "DOUBLE", "#": "TRIPLE", ":": "ONEANDAHALF"}
-ATOMS = ["C", "C", "C", "N", "O", "S", "c", "n", "Cl", "Br", "F", "[Si]", "[NH3+]", "[O-]", "[13CH3]", "P", "I", "B", "[Na+]", "[C@H]"]
+ATOMS = ["C", "C", "C", "N", "O", "S", "c", "n", "s", "o", "p", "Cl", "Br", "F", "[Si]", "[NH3+]", "[O-]", "[13CH3]", "P", "I", "B", "[Na+]", "[C@H]"]
 
 
 def print_chain(chain, ws=lambda: ""):
@@ -86,7 +86,7 @@ class Gen:
         if self.explicit_h and r.random() < 0.05:
             a = "[H]"
         b = "" if first else r.choice(["", "", "", "", "-", "=", "#"])
-        if a in ("c", "n"):
+        if a in ("c", "n", "s", "o", "p"):
             b = "" if first else r.choice(["", "", ":"])
         return ["atom", b, a, []]
 
